@@ -198,12 +198,113 @@ def _finish(simu, mesh, coord, c, res):
     return res
 
 
+# --------------------------------------------------------------------------------------
+# load SEQUENCES on one simulation object (in-place mesh moves, Bc_Init, mesh replacement)
+# --------------------------------------------------------------------------------------
+def _values_of(vals, coord, nodes):
+    values = []
+    for v in vals:
+        if v["kind"] == "const":
+            values.append(float(v["v"]))
+        elif v["kind"] == "poly":
+            values.append(poly_fun(v["coeffs"]))
+        else:
+            f = poly_fun(v["coeffs"])
+            values.append(np.asarray(f(coord[nodes, 0], coord[nodes, 1], coord[nodes, 2]), dtype=float))
+    return values
+
+
+def _groups_of(mesh):
+    return [{"type": et.name, "dim": int(g.dim), "order": int(g.order), "connect": [[int(v) for v in row] for row in g.connect]}
+            for et, g in mesh.dict_groupElem.items()]
+
+
+def run_sequence(c):
+    from EasyFEA import Models, Simulations
+
+    with contextlib.redirect_stdout(io.StringIO()):
+        mesh = build_mesh(c["mesh"]).copy()       # moved in place below: never touch the cached one
+    dim = mesh.dim
+    t = float(c.get("thickness", 1.0))
+    with contextlib.redirect_stdout(io.StringIO()):
+        if c["simu"] == "Elastic":
+            mat = Models.Elastic.Isotropic(dim, E=10.0, v=0.25, planeStress=True, thickness=t) if dim == 2 else Models.Elastic.Isotropic(3, E=10.0, v=0.25)
+            simu = Simulations.Elastic(mesh, mat)
+        else:
+            simu = Simulations.Thermal(mesh, Models.Thermal(k=2.0, c=0.0, thickness=t))
+    res = {"id": c["id"], "dim": int(dim), "meshes": [_groups_of(mesh)], "snapshots": [], "checkpoints": [], "ops_done": 0}
+
+    def snapshot():
+        cur = [[float(v).hex() for v in row] for row in simu.mesh.coord]
+        if not res["snapshots"] or res["snapshots"][-1] != cur:
+            res["snapshots"].append(cur)
+        return len(res["snapshots"]) - 1
+
+    active = []      # loads applied since the last Bc_Init: (op index, nodes, snapshot, mesh index)
+    imesh = 0
+    for k, op in enumerate(c["sequence"]):
+        kind = op["op"]
+        try:
+            with contextlib.redirect_stdout(io.StringIO()):
+                if kind == "load":
+                    m = simu.mesh
+                    nodes = np.asarray(select_nodes(m, op["selection"]), dtype=int)
+                    snap = snapshot()
+                    if nodes.size:
+                        _apply(simu, op["load"], nodes, _values_of(op["values"], m.coord, nodes), op["unknowns"], op)
+                    active.append({"op": k, "nodes": [int(n) for n in nodes], "snapshot": snap, "mesh": imesh})
+                elif kind == "bc_init":
+                    simu.Bc_Init()
+                    active = []
+                elif kind == "translate":
+                    simu.mesh.Translate(*op["d"])
+                elif kind == "set_coord":
+                    m = simu.mesh
+                    m.coord = m.coord * float(op["scale"]) + np.asarray(op["shift"], dtype=float)
+                elif kind == "set_mesh":
+                    other = build_mesh(op["mesh"]).copy()
+                    simu.mesh = other             # the setter re-initialises the boundary conditions
+                    res["meshes"].append(_groups_of(other))
+                    imesh += 1
+                    active = []
+                elif kind == "check":
+                    F = simu.Bc_vector_Neumann()
+                    dof_n = int(simu.Get_dof_n())
+                    cp = {"op": k, "snapshot": snapshot(), "mesh": imesh, "active": [dict(a) for a in active], "Nn": int(simu.mesh.Nn),
+                          "all_unknowns": list(simu.Get_unknowns()), "F": [[float(v) for v in row] for row in F.reshape(-1, dof_n)]}
+                    if op.get("fresh") and active and all(a["snapshot"] == cp["snapshot"] and a["mesh"] == imesh for a in active):
+                        # the same loads on a FRESH simulation built on (a copy of) the current mesh
+                        m2 = simu.mesh.copy()
+                        if c["simu"] == "Elastic":
+                            s2 = Simulations.Elastic(m2, mat)
+                        else:
+                            s2 = Simulations.Thermal(m2, Models.Thermal(k=2.0, c=0.0, thickness=t))
+                        for a in active:
+                            o = c["sequence"][a["op"]]
+                            nd = np.asarray(a["nodes"], dtype=int)
+                            if nd.size:
+                                _apply(s2, o["load"], nd, _values_of(o["values"], m2.coord, nd), o["unknowns"], o)
+                        F2 = s2.Bc_vector_Neumann()
+                        cp["fresh_max_diff"] = float(np.abs(F2 - F).max())
+                        cp["fresh_scale"] = float(max(np.abs(F2).max(), 1e-300))
+                    res["checkpoints"].append(cp)
+                else:
+                    raise ValueError(kind)
+        except Exception as ex:
+            import traceback
+            res["error"] = "op %d (%s): %s: %s" % (k, kind, type(ex).__name__, ex)
+            res["traceback"] = traceback.format_exc()[-1500:]
+            return res
+        res["ops_done"] = k + 1
+    return res
+
+
 def main():
     req = json.load(sys.stdin)
     out = []
     for c in req["cases"]:
         try:
-            out.append(run_case(c))
+            out.append(run_sequence(c) if "sequence" in c else run_case(c))
         except Exception as ex:
             import traceback
             out.append({"id": c["id"], "error": "%s: %s" % (type(ex).__name__, ex), "traceback": traceback.format_exc()[-1500:]})
